@@ -678,6 +678,51 @@ pub fn run(_env: &Env, run: &Run) -> (Stats, Coverage) {
         }
         let _ = std::fs::remove_file(&path);
     }
+    // (4b') a 2-, 3- or 4-byte character of a description at every byte phase around the offsets
+    // at which a block-wise reader refills its buffer (4 KiB .. 64 KiB and the multiples of 8 KiB
+    // up to 32 KiB): reached by one long row, and by many short rows. A reader that decodes
+    // block by block must carry a character cut by the refill over to the next block.
+    {
+        let scratch = Scratch::new();
+        let path = scratch.dir.join("blocks.csv");
+        let first = "0020,ID_DIS or FREE_PVAL,SPACE";
+        let prefix = "0041-005A,ID_DIS or FREE_PVAL,";
+        let short = "0061,PVALID,LATIN SMALL LETTER A - filler row of sixty-four bytes .....";
+        let short_spec = RowSpec { start: 0x61, end: None, p1: 0, p2: None, desc: short[12..].to_string() };
+        let mut n_files = 0u64;
+        for b in [4096usize, 8192, 16384, 24576, 32768, 65536] {
+            for ch in ['\u{e9}', '\u{65e5}', '\u{10400}'] {
+                for d in 0..=4usize {
+                    for eol in ["\n", "\r\n"] {
+                        for many in [false, true] {
+                            if many && b > 8192 {
+                                continue; // check_file is quadratic in the number of rows
+                            }
+                            let mut rows = vec![PoolRow::Good(first.into(), RowSpec { start: 0x20, end: None, p1: 5, p2: Some(1), desc: "SPACE".into() })];
+                            let mut used = "Codepoint,Property,Description".len() + eol.len() + first.len() + eol.len(); // check_file writes the header first
+                            if many {
+                                while used + short.len() + eol.len() + prefix.len() + 8 < b - d {
+                                    rows.push(PoolRow::Good(short.into(), short_spec.clone()));
+                                    used += short.len() + eol.len();
+                                }
+                            }
+                            let k = (b - d).saturating_sub(used + prefix.len());
+                            let desc = format!("{}{}{}yy", "x".repeat(k), ch, ch);
+                            let row = format!("{}{}", prefix, desc);
+                            rows.push(PoolRow::Good(row, RowSpec { start: 0x41, end: Some(0x5A), p1: 5, p2: Some(1), desc }));
+                            rows.push(PoolRow::Good("200C,CONTEXTJ,".into(), RowSpec { start: 0x200C, end: None, p1: 2, p2: None, desc: "".into() }));
+                            st.states += 1;
+                            st.transitions += 1;
+                            n_files += 1;
+                            check_file(&path, &rows, eol, true, &mut st);
+                        }
+                    }
+                }
+            }
+        }
+        st.add("block_boundary_files", n_files);
+        let _ = std::fs::remove_file(&path);
+    }
     // (4c) undecodable lines
     check_latin1(&mut st);
     // (4d) sources that are not finished regular files
